@@ -354,6 +354,7 @@ class Schedule:  # 0404
             return payload_set
 
         if payload[SZ_TOTAL_FRAGS] != _len(payload_set):  # sched has changed
+            self._full_schedule = {}  # the cached schedule has been superseded
             return init_payload_set(payload)
 
         payload_set[payload[SZ_FRAG_NUMBER] - 1] = payload
@@ -362,6 +363,7 @@ class Schedule:  # 0404
         ):  # sets self._schedule
             return payload_set
 
+        self._full_schedule = {}  # ditto: this frag is not of the cached schedule
         return init_payload_set(payload)
 
     async def set_schedule(
